@@ -143,6 +143,8 @@ def run(ctx: Ctx, env):
 
         paths = interp.explore(setup)
         handler_paths[kind] = paths
+        from .common import check_shared_caches
+        check_shared_caches(ctx, paths, "R6.no-state-shared-between-rewriters", "a rewriter with another alias map reuses an earlier rewriter's result")
         for x in paths:
             if x.outcome == "return" and _is_table_entry(x.value, table_attr):
                 substituting.add(kind)
